@@ -407,6 +407,7 @@ size_t SocketTlsImpl::Write(char const *data, size_t size)
         pendingSend = {};
         assert(written <= remaining.size());
         remaining.remove_prefix(written);
+        i = 0; // made progress; only rounds spent on the handshake count towards the limit
       }
       assert(i < handshakeStepsMax);
     }
